@@ -866,15 +866,14 @@ Proof.
     rewrite Nat2N.inj_succ. do 3 f_equal. lia.
 Qed.
 
-Lemma run_issued_nodup_from_unbounded_false :
-  ~ (forall w0 ops w issued0 issued,
+Definition unbounded_statement : Prop :=
+  forall w0 ops w issued0 issued,
       Inv w0 -> Hist w0 issued0 -> NoDup issued0 -> Room w0 (N.of_nat (length ops)) ->
-      run_issued w0 ops issued0 = Some (w, issued) -> NoDup issued).
+      run_issued w0 ops issued0 = Some (w, issued) -> NoDup issued.
+
+Lemma unbounded_false_aux : forall n, N.of_nat n = (gen_modulus - 1)%N -> ~ unbounded_statement.
 Proof.
-  intros F.
-  remember (N.to_nat (gen_modulus - 1)) as n eqn:En.
-  assert (Hn : N.of_nat n = (gen_modulus - 1)%N) by (subst n; apply N2Nat.id).
-  clear En.
+  intros n Hn F.
   pose proof gen_modulus_pos as Hpos.
   destruct (run_cycles n 0%N [(0, 0%N)]) as [l Hl]; [lia|].
   assert (Hwrap : gen_next (0 + N.of_nat n) = 0%N).
@@ -899,3 +898,6 @@ Proof.
     - intros s []. }
   inversion ND as [|? ? Hnin _]; subst. apply Hnin. apply in_or_app. right. left. reflexivity.
 Qed.
+
+Lemma run_issued_nodup_from_unbounded_false : ~ unbounded_statement.
+Proof. exact (unbounded_false_aux (N.to_nat (gen_modulus - 1)) (N2Nat.id _)). Qed.
